@@ -421,6 +421,9 @@ func (tk *tokenizer) consumeUrl(pos Pos) (Token, Token) {
 				cs := tk.consumeEscape()
 				chunks.WriteRune(cs)
 				startPos = tk.pos
+			case c == '\\': // invalid escape
+				tk.pos += w
+				goto badURL
 			default:
 				tk.pos += w
 				// http://drafts.csswg.org/csswg/css-syntax/#non-printable-character
